@@ -407,6 +407,9 @@ def run(ctx, rep):
     rule_data_offset(ctx, rep)
     rule_retype(ctx, rep)
     rule_fatlen(ctx, rep)
+    from . import c10
+
+    c10.rule_thin_ctor(ctx, rep)  # R-FATLEN accepts "the length stored in the block": that equals the length the block was sized with only through the checked thin conversion
     rule_free_type(ctx, rep)
     c07.rule_null(ctx, rep)
 
